@@ -47,3 +47,41 @@ class Prims:
     def g2mulgen(self, s): return bytes.fromhex(self.call("g2mulgen %s" % sc(s).hex()))
     def close(self):
         self.p.stdin.close(); self.p.wait()
+
+# ---- BLS12-381 base-field helpers (only to build on-curve points OUTSIDE the prime-order subgroup)
+FP = 0x1a0111ea397fe69a4b1ba7b6434bacd764774b84f38512bf6730d2a0f6b0f6241eabfffeb153ffffb9feffffffffaaab
+def fp_sqrt(a):
+    a %= FP
+    s = pow(a, (FP + 1) // 4, FP)
+    return s if s * s % FP == a else None
+def fp2_mul(a, b): return ((a[0]*b[0] - a[1]*b[1]) % FP, (a[0]*b[1] + a[1]*b[0]) % FP)
+def fp2_add(a, b): return ((a[0]+b[0]) % FP, (a[1]+b[1]) % FP)
+def fp2_sqrt(a):
+    a0, a1 = a
+    if a1 == 0:
+        s = fp_sqrt(a0)
+        if s is not None: return (s, 0)
+        s = fp_sqrt(-a0 % FP)
+        return (0, s) if s is not None else None
+    n = fp_sqrt((a0*a0 + a1*a1) % FP)
+    if n is None: return None
+    inv2 = pow(2, -1, FP)
+    for sgn in (1, -1):
+        t = (a0 + sgn*n) * inv2 % FP
+        x0 = fp_sqrt(t)
+        if x0 is None or x0 == 0: continue
+        x1 = a1 * pow(2*x0, -1, FP) % FP
+        if fp2_mul((x0, x1), (x0, x1)) == (a0 % FP, a1 % FP): return (x0, x1)
+    return None
+def g2_uncompressed_on_curve(rng):
+    """a random point of E'(Fp2): y^2 = x^3 + 4(1+u); almost surely not in the order-r subgroup"""
+    while True:
+        x = (rng.randrange(FP), rng.randrange(FP))
+        rhs = fp2_add(fp2_mul(fp2_mul(x, x), x), (4, 4))
+        y = fp2_sqrt(rhs)
+        if y is None: continue
+        return x[1].to_bytes(48, "big") + x[0].to_bytes(48, "big") + y[1].to_bytes(48, "big") + y[0].to_bytes(48, "big")
+def g1_uncompressed_on_curve(rng):
+    while True:
+        x = rng.randrange(FP); y = fp_sqrt((x*x*x + 4) % FP)
+        if y is not None: return x, y
